@@ -69,6 +69,14 @@ CHECKS = {
    text="Seeded exploration of concurrent UpdateKeys calls and writers on both sides of an established DTLS 1.3 session under loss, duplication and reordering of KeyUpdate and ACK records, with late duplicates and a reference-forged future-epoch record; the independent refdtls decoder reads epochs, sequence numbers, KeyUpdate and ACK contents off the wire.",
    note="'No longer retained' epochs are not probed (which old epochs are retained is implementation policy); only the not-yet-authorised direction is forged. ACK-before-success is a lower-bound check under concurrency (some KeyUpdate record of the caller acknowledged before each success).",
    technique="deterministic simulation: seeded schedule and fault exploration with reference decoding of protected records"),
+ "C03": dict(level="fault_enumeration", design="§5 C03",
+   text="Every combination of honest role, version, credential type, verification policy and single authentication deviation (282 cases) is executed with a real peer whose credentials or signing key deviate in exactly that way (wrong CA, name, validity window at the virtual clock, foreign private key, corrupted or mis-targeted signature through a custom crypto.Signer, missing certificate, wrong PSK or identity), on a clean link and under loss/duplication/reordering of the rogue's flights. An independent predicate over policy and deviation decides whether the honest side may succeed.",
+   note="The rogue is the real library with deviating credentials, so deviations that need a peer which omits a message yet computes a matching Finished (no Certificate / no CertificateVerify, empty certificate list) are not generated; message removal by a man in the middle is C04's business. With VerifyClientCertIfGiven a client that presents nothing is accepted.",
+   technique="deterministic simulation: enumeration of single authentication deviations by a rogue peer against a policy predicate"),
+ "C04": dict(level="fault_enumeration", design="§5 C04",
+   text="A man in the middle inside the simulated network rewrites every copy of one cleartext handshake message with one deterministic function (field-level for hellos, bit-level for the other messages), for every message type of each handshake mode, crossed with key exchange, EMS policy, resumption and hello verification; if an altered copy went through, no endpoint may report success.",
+   note="Only messages that travel in a single fragment are rewritten (configurations are chosen so that they do). HelloVerifyRequest is not a target: it is outside the Finished hash by design (RFC 6347 4.2.1). DTLS 1.3 messages after ServerHello are encrypted and cannot be rewritten by an on-path attacker.",
+   technique="deterministic simulation: consistent in-transit rewriting of handshake messages (man in the middle in the simulated network)"),
 }
 
 NOT_YET = {}
